@@ -152,8 +152,10 @@ def sequence_leg(ck, tier):
     single invocation (-T, one thread): every audit's availability judgements are those of its own version (TLC's), whatever
     was audited before it."""
     import json as _json
+    import random as _random
     from harness import runner
     from checks import multi, rating
+    rnd = _random.Random(ck.seed)
     seqs = [('OpenSSH', [(6, 4), (10, 0), (6, 5), (9, 9), (7, 3), (9, 10)]),
             ('libssh', [(0, 10, 6), (0, 6, 4), (0, 7, 0), (0, 11, 0)]),
             ('Dropbear SSH', [(2019, 78), (2022, 83), (2013, 56), (2020, 79)])]
@@ -178,6 +180,15 @@ def sequence_leg(ck, tier):
         for rep in range(3 if tier == 'quick' else 12):
             sc, labels = multi.scenario([('server', rating.server_cfg(c)) for c in g], 4, None, json_out=True)
             scs.append((multi.eager(sc), labels, g))
+    # ... and deterministically: the first two audits of some sequences on two threads, one preempted after every block of source lines
+    # of the tool's code (SshSched plans replayed by harness/sched.py), wherever that is - inside a version comparison too
+    for g in groups[::max(1, len(groups) // (3 if tier == 'quick' else 12))]:
+        if len(g) < 2:
+            continue
+        g2 = g[:2]
+        sc, labels = multi.scenario([('server', rating.server_cfg(c)) for c in g2], 2, None, json_out=True)
+        for lp, s2 in multi.line_schedules(ck, sc, labels, rnd, blocks=(30 if tier == 'quick' else 120), preempt=1):
+            scs.append((s2, labels, g2))
     for (sc, labels, g), r in zip(scs, runner.run_many([x[0] for x in scs])):
         ck.evaluated()
         if r.get('harness_error') or r.get('hang'):
